@@ -183,3 +183,17 @@ proof fn lits_auth()
     lemma_ascii_lower_id(AUTH_H());
     axiom_lower_ascii(AUTH_H());
 }
+// String::from(&str) copies the characters
+#[verifier::external_body]
+pub broadcast proof fn axiom_string_from_str_obeys() ensures #[trigger] <String as vstd::std_specs::convert::FromSpec<&str>>::obeys_from_spec() {}
+#[verifier::external_body]
+pub broadcast proof fn axiom_string_from_str(s: &str) ensures (#[trigger] <String as vstd::std_specs::convert::FromSpec<&str>>::from_spec(s))@ == s@ {}
+// String as a hash-table key: Hash and Eq of String are functions of its characters (DESIGN 2.5 item 4)
+#[verifier::external_body]
+pub broadcast proof fn axiom_string_obeys_key_model() ensures #[trigger] obeys_key_model::<String>() {}
+// lower is idempotent (Unicode lower-casing of an already lower-cased string changes nothing)
+#[verifier::external_body]
+pub broadcast proof fn axiom_lower_idempotent(s: Seq<char>)
+    ensures #[trigger] lower(lower(s)) == lower(s) {}
+pub assume_specification [http::Uri::path] (u: &http::Uri) -> (r: &str)
+    ensures r@ == uri_path(*u);
